@@ -39,9 +39,9 @@ COMPONENTS = {
     "stub": ["CAN backend (SimBus)", "python-can's cyclic send task (SimCyclicTask on the virtual clock, three flavours)", "can.Notifier"],
 }
 PROBES = ["sync-restart", "pdo-restart", "pdo-update-in-place", "pdo-update-restart", "hb-1017-sdo", "hb-1017-local", "hb-state-by-command",
-          "hb-state-by-assignment", "guard-restart", "disconnect", "disconnect-noncancelling-backend", "flavour-fixed", "flavour-modifiable-copy", "flavour-by-reference", "flavour-python-can-thread", "thread-task-frame-in-flight"]
+          "hb-state-by-assignment", "guard-restart", "disconnect", "disconnect-noncancelling-backend", "flavour-fixed", "flavour-modifiable-copy", "flavour-by-reference", "flavour-python-can-thread", "thread-task-frame-in-flight", "stop-refused-once"]
 # probes that mark an injected disturbance; the runner also counts them as fired faults in the evidence
-FAULT_PROBES = {'disconnect-noncancelling-backend': 'backend-leaves-tasks-on-shutdown'}
+FAULT_PROBES = {'disconnect-noncancelling-backend': 'backend-leaves-tasks-on-shutdown', 'stop-refused-once': 'driver-refuses-task-stop-once'}
 
 FLAVOURS = ("by-reference", "modifiable-copy", "fixed-copy", "python-can-thread")
 CALLS = {
@@ -217,6 +217,29 @@ def _pdo_payload(w):
     return bytes(w.map.data)
 
 
+def _stop(ctx, w, prod, fn, flavour, what):
+    """A stop call.  In one run of eight per call the driver refuses to stop the cyclic task once (the task's own
+    stop() raises can.CanOperationError, as a socket based broadcast manager can): that call fails and is not
+    judged beyond 'nothing changed'; the application calls stop again, and after THAT call none may be running."""
+    ts = w.tasks_of(prod) if flavour != "python-can-thread" else []
+    if ts and ctx.choice(8, "stop-refused") == 1:
+        for t in ts:
+            t.fail_next_stop = True
+        _, exc = call(fn)
+        for t in ts:
+            t.fail_next_stop = False
+        ctx.probe("stop-refused-once")
+        import can
+        if exc is not None and not isinstance(exc, can.CanError):
+            return exc
+        ctx.run_for(0)
+        if exc is not None:
+            # the refused call changed nothing: the task is still the producer's one and only
+            _verify(ctx, w, "after %s was refused by the driver (%s tasks)" % (what, flavour), flavour)
+    _, exc = call(fn)
+    return exc
+
+
 def _do(ctx, w, prod, callname, flavour):
     m = w.models[prod]
     before = m.running
@@ -243,7 +266,7 @@ def _do(ctx, w, prod, callname, flavour):
                     ctx.probe("sync-restart")
                 m.running = True
         else:
-            _, exc = call(s.stop)
+            exc = _stop(ctx, w, prod, s.stop, flavour, what)
             m.running = False
     elif prod in ("pdo", "rpdo"):
         mp = w.map if prod == "pdo" else w.rmap
@@ -254,7 +277,7 @@ def _do(ctx, w, prod, callname, flavour):
                 ctx.probe("pdo-restart")
             m.running, m.period, m.payload = True, per, bytes(mp.data)
         elif callname == "stop":
-            _, exc = call(mp.stop)
+            exc = _stop(ctx, w, prod, mp.stop, flavour, what)
             m.running = False
         elif callname in ("set-var", "set-var2"):
             which = ctx.choice(len(mp.map), "var")
@@ -278,7 +301,7 @@ def _do(ctx, w, prod, callname, flavour):
             _, exc = call(sl.start_heartbeat, ms)
             m.running, m.period, m.payload = True, ms / 1000.0, bytes([w.state])
         elif callname == "stop":
-            _, exc = call(sl.stop_heartbeat)
+            exc = _stop(ctx, w, prod, sl.stop_heartbeat, flavour, what)
             m.running = False
         elif callname in ("w1017-local", "w1017-zero-local", "w1017-sdo", "w1017-zero-sdo"):
             ms = 0 if "zero" in callname else (1, 10, 100, 1000, 65535)[ctx.choice(5, "ms")]
@@ -331,7 +354,7 @@ def _do(ctx, w, prod, callname, flavour):
                 ctx.probe("guard-restart")
             m.running, m.period, m.payload = True, per, b""
         else:
-            _, exc = call(g.stop_node_guarding)
+            exc = _stop(ctx, w, prod, g.stop_node_guarding, flavour, what)
             m.running = False
     if exc is not None:
         ctx.violation("C17/call-raised/%s@%s" % (type(exc).__name__, site(exc)), "%s raised %r" % (what, exc))
